@@ -425,7 +425,8 @@ pub fn sd_eval(prop: &'static str, case: &SdCase) -> CaseOutcome {
                 let (cr, v) = classify(r);
                 res = cr;
                 if let Some(b) = v {
-                    if b.0 as u64 != cap && !unreliable_answers && (case.use_crc || !wire_altered0) {
+                    let chance_crc = matches!(case.card.adversary, Adversary::SilentFrom(_) | Adversary::StuckHigh { .. });
+                    if b.0 as u64 != cap && !unreliable_answers && !chance_crc && (case.use_crc || !wire_altered0) {
                         push("C12", "capacity-blocks", &format!("{:?}", cur.kind), format!("driver {} blocks, CSD says {} (c_size {}, mult {}, read_bl_len {})", b.0, cap, cur.c_size, cur.c_size_mult, cur.read_bl_len), i);
                     } else {
                         probes.hit("capacity_checked");
@@ -437,7 +438,8 @@ pub fn sd_eval(prop: &'static str, case: &SdCase) -> CaseOutcome {
                 let (cr, v) = classify(r);
                 res = cr;
                 if let Some(b) = v {
-                    if b != cap * 512 && !unreliable_answers && (case.use_crc || !wire_altered0) {
+                    let chance_crc = matches!(case.card.adversary, Adversary::SilentFrom(_) | Adversary::StuckHigh { .. });
+                    if b != cap * 512 && !unreliable_answers && !chance_crc && (case.use_crc || !wire_altered0) {
                         push("C12", "capacity-bytes", &format!("{:?}", cur.kind), format!("driver {} bytes, CSD says {}", b, cap * 512), i);
                     }
                 }
@@ -459,6 +461,14 @@ pub fn sd_eval(prop: &'static str, case: &SdCase) -> CaseOutcome {
                     if judge_data && in_range {
                         for (k, b) in bufs.iter().enumerate() {
                             if b.contents != expect_block(&twin, *block + k as u64) {
+                                // a line that reads all ones from some byte on delivers 0xFFFF as the CRC: when the bytes the
+                                // driver got happen to have that CRC, nothing lets it notice (the statement demands an error
+                                // only for corruption the CRC can detect)
+                                let wire_ones = matches!(case.card.adversary, Adversary::SilentFrom(_) | Adversary::StuckHigh { .. });
+                                if wire_ones && case.use_crc && crc16_bits(&b.contents) == 0xFFFF {
+                                    probes.hit("corruption_whose_crc_matches_by_chance_accepted");
+                                    continue;
+                                }
                                 let p = if adversarial { "C13" } else { "C12" };
                                 push(p, if adversarial { "corrupted-data-returned-as-good" } else { "read-data" }, &format!("{}:{:?}:crc{}", opk, cur.kind, case.use_crc as u8), format!("block {} (+{}) differs from card memory", block, k), i);
                                 break;
